@@ -4,6 +4,7 @@
 import TxVerif.Proofs.PQQueueSim
 import TxVerif.Proofs.PQQueueReopen
 import TxVerif.Proofs.PQQueueAck
+import TxVerif.Proofs.PQQueueSpace
 namespace TxVerif
 
 theorem sim_counters (c : QCfg) (q : PQState) (a a' : ASpec) (o : QOut) (fl : Bool)
@@ -22,7 +23,7 @@ theorem sim_counters (c : QCfg) (q : PQState) (a a' : ASpec) (o : QOut) (fl : Bo
 
 theorem HInv_setW (S : Nat) (evs : List (List UInt8)) (F A : Nat) (q : PQState) (w' : WState) (r' : RState)
     (hp : w'.persisted = q.w.persisted) (h : HInv S evs F A q) : HInv S evs F A { q with w := w', r := r' } := by
-  refine ⟨h.tail, h.start, h.tailSet, h.headSet, h.readSet, ?_, ?_, ?_, h.totF, h.totA, h.le, h.headLt⟩
+  refine ⟨h.tail, h.start, h.tailSet, h.headSet, h.readSet, ?_, ?_, ?_, h.totF, h.totA, h.le, h.headLt, h.headGe⟩
   · intro h0; have := h.startPos h0; simp only [hp]; exact this
   · intro h0; have := h.head h0; simp only [hp]; exact this
   · have := h.inuse; simp only [hp]; exact this
@@ -107,7 +108,7 @@ theorem sim_ack (c : QCfg) (hP : 64 ≤ c.P) (q : PQState) (a a' : ASpec) (o : Q
   obtain ⟨hS, h4⟩ := c.S_add hP
   have hsz : ∀ e ∈ a.events, e.length < 2 ^ 32 := fun e he => (hI.sz e he).2
   obtain ⟨K, k1, k2, k3, k4, k5⟩ := hH.head hFpos
-  obtain ⟨hnc, st, hst, hlt, K', g1, g2, g3, g4, g5, _, g8, g6⟩ :=
+  obtain ⟨hnc, st, hst, hlt, K', g1, g2, g3, g4, g5, g7, g8, g6⟩ :=
     ack_plan_C c.P c.S hS h4 a.events a.flushed q.w.persisted hI.crel hI.fle hFpos hsz q.headPos.1 K k1 k3
       (a.acked + n) (by omega) (by omega)
   have hstep : q.step c (.ack n) =
@@ -122,7 +123,7 @@ theorem sim_ack (c : QCfg) (hP : 64 ≤ c.P) (q : PQState) (a a' : ASpec) (o : Q
   refine ⟨hI.w, hI.fl, hI.cnt, hI.sz, ?_, ?_⟩
   · refine ⟨by simp only; rw [hack]; exact hH.tail, ?_, by simp only; rw [hack]; exact hH.tailSet,
       by simp only; rw [hack]; simp [hFpos], fun _ => hFpos, ?_, ?_, ?_, hH.totF, by simp only; rw [hH.totA],
-      by simp only; omega, ?_⟩
+      by simp only; omega, ?_, ?_⟩
     · have hs0 := hH.start
       simp only [QHdr.startId] at hs0
       simp only; rw [hack]; simp only [QHdr.startId, if_true]; rw [hs0]
@@ -144,6 +145,9 @@ theorem sim_ack (c : QCfg) (hP : 64 ≤ c.P) (q : PQState) (a a' : ASpec) (o : Q
       show st.headId < a.acked + n
       rw [← g4]
       exact g8 (by rw [k4]; omega)
+    · right
+      exact ack_head_ge c.P c.S hS h4 a.events a.flushed q.w.persisted hI.crel hI.fle hsz _ K' g1 g3 (a.acked + n)
+        (by omega) (by omega) g7
   · have hR := hI.r
     refine ⟨hR.inTx.trans hr', hR.bytes, hR.cons, hR.endId, ?_⟩
     have hc := hR.cur
